@@ -66,7 +66,7 @@ class C16(Prop):
         await self.rig.close()
 
     def cases(self, tier, seed, shard, nshards):
-        n = {"quick": 480, "thorough": 6_000}[tier]
+        n = {"quick": 480, "thorough": 40_000}[tier]
         for i in range(shard, n, nshards):
             yield {"i": i, "seed": seed}
 
